@@ -29,14 +29,16 @@ def ann(block, mapping):
                 break
     exp = exp[:i] + '\n'.join(lines) + exp[j:]
 
-ann('scope_Close', [
+ann('scope_dispose', [
     ('.atomic "CompareAndSwapInt32"', 'cCas'),
-    ('.chanRecv "s.closed"', 'cWait (the loser of the CAS; returns nil afterwards)'),
-    ('.deferChanClose', 'cSig (runs last)'),
+    ('.chanRecv "s.closed"', 'cWait (the loser of the CAS)'),
+    ('.plainRead "s.closeErr"', 'cWait: read after the receive'),
+    ('.deferChanClose', 'cSig (deferred first, runs last)'),
+    ('.plainWrite "s.closeErr"', 'cErr (deferred second, runs before cSig)'),
     ('.call "s.cancel"', 'cCancel'),
     ('.lock "s.childrenMu"', 'cTake ['),
     ('.unlock "s.childrenMu"', 'cTake ]'),
-    ('.call "child.Close"', 'cKids -> kCas ... (nested Close of each child)'),
+    ('.call "child.dispose"', 'cKids -> kCas ... (nested dispose of each child)'),
     ('.lock "s.disposablesMu"', 'cTakeD ['),
     ('.unlock "s.disposablesMu"', 'cTakeD ]'),
     ('.call "disposables[].Close"', 'cDrain (USER Close, reverse order)'),
@@ -102,8 +104,8 @@ ann('provider_Close', [
     ('.atomic "CompareAndSwapInt32"', 'pCas (a loser returns nil at once)'),
     ('.lock "p.scopesMu"', 'pTake ['),
     ('.unlock "p.scopesMu"', 'pTake ]'),
-    ('.call "s.Close"', 'pScopes -> cCas / kCas'),
-    ('.call "p.rootScope.Close"', 'pRest ...'),
+    ('.call "s.dispose"', 'pScopes -> cCas / kCas'),
+    ('.call "p.rootScope.dispose"', 'pRest ...'),
 ])
 ann('provider_getSingleton', [('.atomic', 'gLoad')])
 open(target, 'w').write(head + 'namespace Godi.Conc.LockExpected' + exp + 'end Godi.Conc.LockExpected' + tail)
